@@ -244,10 +244,22 @@ CLAIMED["C07"] = (
     "DESIGN.md section 11, C07",
 )
 
+CLAIMED["C12"] = (
+    "abstract interpretation of svd / eigh / norm / solve over shaped tokens at block level (which blocks contribute, once each, under "
+    "which charge); the checker's own group model for the block-diagonal structure",
+    "For every enumerated matrix (Z2, U1, Z2Z2; four direction patterns; identity / non-identity charge; tall, wide, square blocks; a "
+    "missing block; abelian and fermionic with pending signs): the singular values are exactly one backend-SVD vector per stored "
+    "block under that block's column charge (none dropped, doubled or misfiled) and no two stored blocks share a row or column charge "
+    "(dense matrix block diagonal up to permutation); eigenvalues likewise per diagonal block; the norm is the square root of a sum "
+    "in which each stored block's squared magnitudes occur exactly once; solve uses each a-block once with the b-block of its row "
+    "charge for the solution block of its column charge. With the assumed facts (spectrum of a block-diagonal matrix = union of block "
+    "spectra; backend correct per block) this is the property. " + BOUNDED,
+    "The numbers are not computed; complex data and the dense comparison itself are outside the technique.",
+    "DESIGN.md section 11, C12",
+)
+
 PENDING = "check not built yet (construction in progress; see DESIGN.md section 2 for the planned static rule)"
 NOT_APPLICABLE = {
-    "C12": "purely numerical equality of backend decompositions with dense ones; nothing structural beyond what C11's "
-           "partial rules already cover (DESIGN.md section 3)",
 }
 
 
